@@ -111,6 +111,9 @@ def identity_representatives(ctx):
     for a_ in reps:
         for b_ in reps:
             ctx.add('rs.eq', a_, b_, expect=['T', 'T', 'T'], cls='identity-reps')
+        # the group-trait view of the same representative: is_identity, and every derived element is the identity too
+        ctx.add('gp.rs_ops', a_, a_, cs(rng.randrange(L)), expect=[z, z, z, z, z, z, 'T', z, ref.ristretto_encode(ref.B).hex(), z, 'T'],
+                cls='identity-reps')
     ctx.block()
 
 
